@@ -1,5 +1,5 @@
 use flacref::dec::{decode_file, deinterleave, Rules};
-use flacref::gen::*;
+use flacref::sgen::*;
 use flacref::pcm::{generate, ALL_SIGNALS};
 use flacref::rng::Rng;
 
